@@ -713,6 +713,44 @@ def prop_C05(ctx):
                                'most-specific-instruction rule vs implementation, impl by impl', key='chain',
                                extra={'impl_got': text[:1500], 'impl_expected': want[:1500]})
         ctx.cov['contexts_checked_' + shape] = nctx
+    # the same rule one level down (ParentChildField::get_for_kind): the instruction of exactly the kind, else (into_existing) the into one
+    names = gen.NESTED_MAP_NAMES
+    sel = [()] + [(a,) for a in names] + [(a, b) for a in names for b in names] + \
+        [tuple(ctx.rng.choice(names) for _ in range(3)) for _ in range(150 if q else 1500)]
+    recs = ctx.run_set('chain_nested_parent', [gen.c05_pcf_item(fs) for fs in sel], vlib.obs_full)
+    base = {}
+    for r in recs:
+        if len(r['item'].meta['forms']) <= 1 and vlib.outcome_class(r['out']) == 'ok':
+            base[tuple(r['item'].meta['forms'])] = impls_by_header(r['out'])
+    nctx = 0
+    for r in recs:
+        fs = r['item'].meta['forms']
+        if len(fs) < 2 or vlib.outcome_class(r['out']) != 'ok':
+            continue
+        for hdr, text in impls_by_header(r['out']).items():
+            kfc = oracles.header_context(hdr)
+            if kfc is None:
+                continue
+            kind, fallible, cp = kfc
+            w = None
+            for k in [kind] + ([kind.replace('_existing', '')] if kind.endswith('_existing') else []):
+                for i, nm in enumerate(fs):
+                    if (k, False) in oracles.instr_kinds(nm):
+                        w = i
+                        break
+                if w is not None:
+                    break
+            ref = base.get((fs[w],) if w is not None else (), {}).get(hdr)
+            if ref is None:
+                continue
+            nctx += 1
+            want = ref.replace('e1', 'e%d' % (w + 1)).replace('m1', 'm%d' % (w + 1)) if w is not None else ref
+            if text != want:
+                ctx.report(r, 'conversion (%s, fallible=%s, %s): inside #[parent(..)] the instruction that should take effect is %s, but the impl is not the one generated '
+                           'when only that instruction is present' % (kind, fallible, cp, ('#%d [%s(..)]' % (w + 1, fs[w])) if w is not None else 'none'),
+                           'most-specific-instruction rule vs implementation, impl by impl', key='chain-nested',
+                           extra={'impl_got': text[:1500], 'impl_expected': want[:1500]})
+    ctx.cov['contexts_checked_nested_parent'] = nctx
     return ctx.finish()
 
 
@@ -1166,6 +1204,11 @@ def prop_C08(ctx):
     recs = ctx.run_set('params', gen.c08_cases(ctx.rng, 5000 if q else 50000), obs_C08, sem=True)
     n = 0
     for r in recs:
+        if vlib.outcome_class(r['out']) == 'panic' and (r['item'].meta['spec']['tail'] or ('',))[0] == 'return':
+            # `return expr` replaces the whole generated body: no part of the member-by-member rendering may be reached
+            ctx.report(r, 'an instruction with `return expr` does not expand to the expression: the expansion panicked (%s)' % vlib.panic_payload(r['out'])[:120],
+                       'catch_unwind on an input whose only body is the quick return', key='qret-panic:' + panic_key(r))
+            continue
         if vlib.outcome_class(r['out']) != 'ok' or not r.get('sem'):
             continue
         facts = c08_facts(r['sem'], r['item'])
